@@ -59,10 +59,11 @@ type writerCfg struct {
 	noFlush bool
 	nExt    int
 	op      int64
+	extra   int64 // further state bits (ws.StateExtended = 4): the side must be tested as a flag
 }
 
 func (w writerCfg) String() string {
-	return fmt.Sprintf("client=%v raw=%d reserve=%d n=%d dirty=%v fseq=%d failed=%v noFlush=%v exts=%d op=%d", w.client, w.rawLen, w.offset, w.n, w.dirty, w.fseq, w.sticky, w.noFlush, w.nExt, w.op)
+	return fmt.Sprintf("client=%v raw=%d reserve=%d n=%d dirty=%v fseq=%d failed=%v noFlush=%v exts=%d op=%d state+=%d", w.client, w.rawLen, w.offset, w.n, w.dirty, w.fseq, w.sticky, w.noFlush, w.nExt, w.op, w.extra)
 }
 
 func newWriterObj(mm *fold.Machine, L *writerLayout, cfg writerCfg) (*fold.Obj, *fold.Obj) {
@@ -73,7 +74,7 @@ func newWriterObj(mm *fold.Machine, L *writerLayout, cfg writerCfg) (*fold.Obj, 
 	if cfg.client {
 		state = 2
 	}
-	st.F[L.state] = fold.K(state)
+	st.F[L.state] = fold.K(state | cfg.extra)
 	ext := make([]fold.Val, cfg.nExt)
 	for i := range ext {
 		ext[i] = fold.Sym{Name: fmt.Sprintf("ext%d", i+1), NonNil: true}
@@ -237,6 +238,7 @@ func writerFlushFragmentRules(c *Ctx, prop string) {
 	paths := m.Explore(f, func(mm *fold.Machine) []fold.Val {
 		sh := shapes[mm.Choose("shape", len(shapes))]
 		cfg = writerCfg{rawLen: sh.raw, offset: sh.off, n: sh.n, op: int64(1 + mm.Choose("op", 2)), fseq: mm.Choose("fseq", 3), nExt: mm.Choose("next", 3)}
+		cfg.extra = int64(mm.Choose("extended", 2)) * 4
 		cfg.client = sh.off == 6 || sh.off == 8
 		fin = mm.Choose("fin", 2) == 1
 		o, _ := newWriterObj(mm, L, cfg)
@@ -458,6 +460,7 @@ func writerMethodRules(c *Ctx, prop string) {
 			cfg.fseq = mm.Choose("fseq", 3)
 			cfg.sticky = mm.Choose("sticky", 2) == 1
 			cfg.nExt = 1
+			cfg.extra = int64(mm.Choose("extended", 2)) * 4
 			obj, _ = newWriterObj(mm, L, cfg)
 			args := []fold.Val{fold.Ref{O: obj}}
 			if extra != nil {
@@ -555,6 +558,9 @@ func writerMethodRules(c *Ctx, prop string) {
 				}
 				if r.fin.n != "0" || r.fin.fseq != fmt.Sprint(r.cfg.fseq+1) {
 					problems = append(problems, fmt.Sprintf("FlushFragment must empty the buffer and count the fragment (n=%s fseq=%s) [%s]", r.fin.n, r.fin.fseq, r.cfg))
+				}
+				if r.cfg.dirty && r.fin.dirty != "true" {
+					problems = append(problems, fmt.Sprintf("FlushFragment clears the dirty flag: a following Flush emits nothing, the message is left without its final frame and the next one starts as a continuation [%s]", r.cfg))
 				}
 			}
 		}
